@@ -258,6 +258,16 @@ def replayer(kind):
 
 
 def bounded(run):
+    # the public entry point with weights through the partitioned path (sort on/off): each particle is deposited with ITS weight
+    # (runs first: the fork pool must start before the parent initialises numba's threading layer)
+    from contracts import C07
+    tasks = [(run.seed + 70 + k, nt, npn, sort, True) for k, (nt, npn, sort) in enumerate(itertools.product((2, 5), (None, 4), (False, True)))]
+    for t, why in zip(tasks, run.pmap(C07._e2e_worker, tasks)):
+        if why:
+            run.bounded_violation('tsc_parallel with weights vs spline reference', dict(seed=t[0], nthread=t[1], npartition=t[2], sort=t[3]), why)
+            break
+    run.add_bounded('real tsc_parallel (weights, partitioned, sort on/off) vs direct spline evaluation', len(tasks), len(tasks),
+                    '24 x 8 x 6 grid, 400 weighted particles incl. periodic images, nthread {2,5} x npartition {default, 4} x sort', [dict(nthread=5, npartition=4, sort=True)])
     nev = 0
     ncase = 0
     for kind in ('tsc', 'cic'):
